@@ -143,7 +143,7 @@ def overviewTr (A : Aff) (rs : Int) : Aff := Aff.scale (1 / (rs : Rat)) (1 / (rs
 structure PasteCond (A : Aff) (n stol ttol : Rat) (rs : Int) : Prop where
   st : isAffineST A = true
   scaleInt : isAlmostInt (min (scale2 A n).1 (scale2 A n).2) stol = true
-  rs : pickReadScale (min (scale2 A n).1 (scale2 A n).2) = .ok rs
+  hrs : pickReadScale (min (scale2 A n).1 (scale2 A n).2) = .ok rs
   sx : rabs (rabs (overviewTr A rs).a - 1) < stol
   sy : rabs (rabs (overviewTr A rs).e - 1) < stol
   tx : isAlmostInt (overviewTr A rs).c ttol = true
@@ -164,9 +164,9 @@ theorem canPaste_true_iff (A : Aff) (n stol ttol : Rat) :
           simp only [h3] at h
           split_ifs at h with c1 c2
           · simp at h
+          · have c1' := not_or.mp c1
+            exact ⟨rs, ⟨h1, h2, h3, not_le.mp c1'.1, not_le.mp c1'.2, c2.1, c2.2⟩⟩
           · simp at h
-          · push Not at c1 c2
-            exact ⟨rs, ⟨h1, h2, h3, c1.1, c1.2, c2.1, c2.2⟩⟩
       · simp [h2] at h
     · simp [h1] at h
   · rintro ⟨rs, hc⟩
@@ -177,7 +177,150 @@ theorem canPaste_true_iff (A : Aff) (n stol ttol : Rat) :
       · exact absurd hc.sy (not_lt.mpr h)
     have c2 : ¬¬ (isAlmostInt (Aff.scale (1 / (rs : Rat)) (1 / (rs : Rat)) * A).c ttol = true ∧
         isAlmostInt (Aff.scale (1 / (rs : Rat)) (1 / (rs : Rat)) * A).f ttol = true) := not_not.mpr ⟨hc.tx, hc.ty⟩
-    simp only [hc.st, not_true_eq_false, if_false, hc.scaleInt, hc.rs]
+    simp only [hc.st, not_true_eq_false, if_false, hc.scaleInt, hc.hrs]
     rw [if_neg c1, if_neg c2]
+
+
+/-! ### `split_float`, `maybe_int`, `is_almost_int`, `snap_scale` -/
+
+/-- distance to the nearest integer as `is_almost_int` computes it -/
+def nearMeasure (x : Rat) : Rat :=
+  let p := rabs (fmod1 x)
+  if p > 1 / 2 then 1 - p else p
+
+theorem isAlmostInt_eq (x tol : Rat) : isAlmostInt x tol = decide (nearMeasure x < tol) := rfl
+
+theorem fmod1_bounds (x : Rat) : -1 < fmod1 x ∧ fmod1 x < 1 ∧ (0 ≤ x → 0 ≤ fmod1 x) ∧ (x < 0 → fmod1 x ≤ 0) := by
+  unfold fmod1 trunc
+  have f1 := Rat.floor_le x
+  have f2 : x < (x.floor : Rat) + 1 := by have := Rat.lt_floor_add_one x; push_cast at this; exact this
+  have c1 := @Rat.le_ceil x
+  have c2 : (x.ceil : Rat) < x + 1 := Rat.ceil_lt
+  split_ifs with h
+  · refine ⟨by linarith, by linarith, fun _ => by linarith, fun h' => by linarith⟩
+  · refine ⟨by linarith, by linarith, fun h' => absurd h' h, fun _ => by linarith⟩
+
+/-- `split_float x = (k, x - k)` for an integer `k` with `|x - k|` the distance `is_almost_int` uses -/
+theorem splitFloat_spec (x : Rat) :
+    ∃ k : Int, (splitFloat x).1 = (k : Rat) ∧ (splitFloat x).2 = x - k ∧ rabs (x - k) = nearMeasure x := by
+  obtain ⟨b1, b2, _, _⟩ := fmod1_bounds x
+  have hT : x - fmod1 x = ((trunc x : Int) : Rat) := by unfold fmod1; ring
+  unfold splitFloat nearMeasure
+  simp only
+  by_cases h1 : fmod1 x > 1 / 2
+  · refine ⟨trunc x + 1, ?_, ?_, ?_⟩
+    · simp only [h1, if_true]; rw [hT]; push_cast; ring
+    · simp only [h1, if_true]; push_cast; rw [← hT]; ring
+    · have e : x - ((trunc x + 1 : Int) : Rat) = fmod1 x - 1 := by push_cast; rw [← hT]; ring
+      have hp : rabs (fmod1 x) = fmod1 x := by unfold rabs; rw [if_neg (by linarith)]
+      rw [e, hp, if_pos h1]
+      unfold rabs; rw [if_pos (by linarith)]; ring
+  · by_cases h2 : fmod1 x < -(1 / 2)
+    · refine ⟨trunc x - 1, ?_, ?_, ?_⟩
+      · simp only [h1, h2, if_true, if_false]; rw [hT]; push_cast; ring
+      · simp only [h1, h2, if_true, if_false]; push_cast; rw [← hT]; ring
+      · have e : x - ((trunc x - 1 : Int) : Rat) = fmod1 x + 1 := by push_cast; rw [← hT]; ring
+        have hp : rabs (fmod1 x) = -fmod1 x := by unfold rabs; rw [if_pos (by linarith)]
+        rw [e, hp, if_pos (by linarith)]
+        unfold rabs; rw [if_neg (by linarith)]; ring
+    · refine ⟨trunc x, ?_, ?_, ?_⟩
+      · simp only [h1, h2, if_false]; rw [hT]
+      · simp only [h1, h2, if_false]; rw [← hT]; ring
+      · have e : x - ((trunc x : Int) : Rat) = fmod1 x := by rw [← hT]; ring
+        rw [e]
+        have : ¬ rabs (fmod1 x) > 1 / 2 := by
+          unfold rabs; split_ifs <;> linarith
+        rw [if_neg this]
+
+/-- `is_almost_int x tol` ⇒ `x` is within `tol` of an integer, and `maybe_int` returns that integer -/
+theorem isAlmostInt_spec (x tol : Rat) (h : isAlmostInt x tol = true) :
+    ∃ k : Int, rabs (x - k) < tol ∧ maybeInt x tol = (k : Rat) := by
+  obtain ⟨k, e1, e2, e3⟩ := splitFloat_spec x
+  rw [isAlmostInt_eq, decide_eq_true_eq] at h
+  refine ⟨k, by rw [e3]; exact h, ?_⟩
+  unfold maybeInt
+  simp only [e2, e3, h, if_true, e1]
+
+theorem floor_eq_of (x : Rat) (k : Int) (h1 : (k : Rat) ≤ x) (h2 : x < (k : Rat) + 1) : x.floor = k := by
+  apply le_antisymm
+  · have := Rat.floor_le x
+    have : (x.floor : Rat) < (k : Rat) + 1 := by linarith
+    have : x.floor < k + 1 := by exact_mod_cast this
+    omega
+  · rw [Rat.le_floor_iff]; exact h1
+
+theorem ceil_eq_of (x : Rat) (k : Int) (h1 : (k : Rat) - 1 < x) (h2 : x ≤ (k : Rat)) : x.ceil = k := by
+  apply le_antisymm
+  · rw [Rat.ceil_le_iff]; exact h2
+  · have := @Rat.le_ceil x
+    have : (k : Rat) - 1 < (x.ceil : Rat) := by linarith
+    have : k - 1 < x.ceil := by exact_mod_cast this
+    omega
+
+theorem nearMeasure_le_half (x : Rat) : nearMeasure x ≤ 1 / 2 := by
+  obtain ⟨b1, b2, _, _⟩ := fmod1_bounds x
+  unfold nearMeasure
+  simp only
+  split_ifs with h
+  · linarith
+  · exact not_lt.mp h
+
+theorem rabs_lt_iff (x b : Rat) : rabs x < b ↔ (-b < x ∧ x < b) := by
+  unfold rabs
+  split_ifs with c
+  · constructor
+    · intro h; constructor <;> linarith
+    · rintro ⟨h1, h2⟩; linarith
+  · constructor
+    · intro h; constructor <;> linarith
+    · rintro ⟨h1, h2⟩; linarith
+
+theorem rabs_le_iff (x b : Rat) : rabs x ≤ b ↔ (-b ≤ x ∧ x ≤ b) := by
+  unfold rabs
+  split_ifs with c
+  · constructor
+    · intro h; constructor <;> linarith
+    · rintro ⟨h1, h2⟩; linarith
+  · constructor
+    · intro h; constructor <;> linarith
+    · rintro ⟨h1, h2⟩; linarith
+
+/-- `maybe_int` of a number within `tol ≤ ½` of the integer `j` is `j` -/
+theorem maybeInt_of_near (x tol : Rat) (j : Int) (htol : tol ≤ 1 / 2) (h : rabs (x - j) < tol) :
+    maybeInt x tol = (j : Rat) := by
+  obtain ⟨k, e1, e2, e3⟩ := splitFloat_spec x
+  have hk : rabs (x - k) ≤ 1 / 2 := by rw [e3]; exact nearMeasure_le_half x
+  have h' := (rabs_lt_iff _ _).mp h
+  have hk' := (rabs_le_iff _ _).mp hk
+  have hkj : k = j := by
+    have a1 : (k : Rat) - j < 1 := by linarith [h'.1, hk'.2]
+    have a2 : (j : Rat) - k < 1 := by linarith [h'.2, hk'.1]
+    have a1' : k - j < 1 := by exact_mod_cast a1
+    have a2' : j - k < 1 := by exact_mod_cast a2
+    omega
+  subst hkj
+  unfold maybeInt
+  simp only [e2, e1, h, if_true]
+
+/-- a scale within `tol ≤ ½` of `±1` is snapped to exactly `±1` (sign kept) -/
+theorem snapScale_unit (s tol : Rat) (htol : tol ≤ 1 / 2) (h : rabs (rabs s - 1) < tol) :
+    snapScale s tol = if s < 0 then -1 else 1 := by
+  have habs : 1 - tol < rabs s ∧ rabs s < 1 + tol := by
+    generalize rabs s = r at h ⊢
+    unfold rabs at h
+    split_ifs at h <;> constructor <;> linarith
+  unfold snapScale
+  rw [if_pos (by linarith [habs.1])]
+  by_cases hs : s < 0
+  · have hr : rabs s = -s := by unfold rabs; rw [if_pos hs]
+    rw [hr] at habs
+    rw [if_pos hs]
+    have := maybeInt_of_near s tol (-1) htol (by rw [rabs_lt_iff]; push_cast; constructor <;> linarith [habs.1, habs.2])
+    rw [this]; push_cast; ring
+  · have hr : rabs s = s := by unfold rabs; rw [if_neg hs]
+    rw [hr] at habs
+    rw [if_neg hs]
+    have := maybeInt_of_near s tol 1 htol (by rw [rabs_lt_iff]; push_cast; constructor <;> linarith [habs.1, habs.2])
+    rw [this]; push_cast; ring
 
 end OdcGeo.C10
